@@ -2,6 +2,7 @@ import Driver.Util
 import Driver.Breaker
 import Driver.Sf
 import Driver.Sfwrap
+import Driver.Caches
 open Lean Sso.Drv
 
 /-! `ssoverif <trace.jsonl>`: one verdict line per case, then a summary line. -/
@@ -11,6 +12,7 @@ def dispatch (e : String) (j : Json) : Except String Verdict :=
   | "breaker" => Sso.Drv.Breaker.checkCase j
   | "sf" => Sso.Drv.Sf.checkCase j
   | "sfwrap" => Sso.Drv.Sfwrap.checkCase j
+  | "caches" => Sso.Drv.Caches.checkCase j
   | _ => throw s!"unknown engine {e}"
 
 partial def loop (h : IO.FS.Stream) (out : IO.FS.Stream) (n bad : Nat) : IO (Nat × Nat) := do
